@@ -54,3 +54,13 @@ P["C01"] = {
     "rule": "Contexts built by hand (security level None): N = 2..32 (thorough 2..128), 1..4 (6) NTT-friendly primes of 18..60 bits ascending/descending/mixed, plain modulus batching prime / 2^k / 3 / larger than a coefficient prime, special-prime flag set/unset/default, three schemes; plaintexts 0, all t-1, floor/ceil t/2 alternating, 1, short random, single top coefficient, full random; modes public-key / secret-key / secret-key+seed (expanded); encryptions of zero at every level; CKKS at every level with random complex slots. The ciphertext, secret key and plaintext are dumped; the driver recomputes the exact phase with big integers.",
     "assumptions": ["the secret key is dumped in coefficient form through the library's own inverse NTT (checked by C09)", "drawn randomness (u, e, a) is whatever the library drew; the exact-phase oracle needs only the key and the ciphertext"],
 }
+
+P["C02"] = {
+    "lean_modules": ["Heathcliff.Props.C02"],
+    "level": "proof",
+    "runs": lambda tier, seed: [{"seed": seed}] if tier == "quick" else [{"seed": seed * 1000 + i} for i in range(6)],
+    "search": lambda tier, seed: [{"seed": seed * 7919 + i} for i in range(2)],
+    "rule": "Random well-typed programs (negate, add, sub, multiply, square, add/sub/multiply_plain incl. monomials and NTT-form plaintexts, representation changes, relinearize, mod-switch) over a pool of ciphertexts, operand sizes 2..6 and mixed size pairs (products without relinearisation), N = 4..32 (thorough 64), 2..4 primes of 40..60 bits, t batching / 2^k / small odd, BFV and BGV (correction factors != 1 arise through mod-switch and products). Every result is dumped with the value of the shadow program in Z_t[X]/(X^N+1); the driver decrypts it with exact integers.",
+    "assumptions": ["the shadow program (plaintext arithmetic mod (X^N+1, t)) is evaluated by the harness in Rust (30 lines, independent of the library)",
+                    "the spec claims exact decryption when the conservative predicted budget is >= 4 bits or the exact budget is >= 1 bit; the prediction rule (harness/src/c02.rs pred_mul etc.) only decides where a claim is made"],
+}
